@@ -4,6 +4,7 @@ import (
 	"fmt"
 	"go/token"
 	"go/types"
+	"os"
 
 	"golang.org/x/tools/go/ssa"
 
@@ -962,9 +963,21 @@ func (ex *Exec) fpQuotientCut(st *State, f *term.Term, w int, signed bool, site 
 		return nil
 	}
 	v := X.Args[0]
-	sr, ok := st.facts().srangeOf(v)
+	sr, ok := st.facts().srangeLin(v)
 	if !ok || sr.lo < -(1<<53) || sr.hi > 1<<53 {
 		return nil
+	}
+	// the range claim, generalised where possible; the range must then follow from the generalised guard alone
+	rg, rv := ex.abstractByFacts(st, v)
+	if rg != st.G {
+		if sr2, ok2 := factsOf(rg).srangeOf(rv); ok2 && sr2.lo >= -(1<<53) && sr2.hi <= 1<<53 {
+			sr = sr2
+		} else {
+			rg, rv = st.G, v
+		}
+	}
+	if os.Getenv("SYMGO_DEBUG_CUT") != "" {
+		fmt.Fprintf(os.Stderr, "CUT v=%s\n  range=[%d,%d]\n  guard=%s\n  out=%s\n", term.Deep(v, 6), sr.lo, sr.hi, term.Deep(rg, 6), term.Deep(rv, 6))
 	}
 	key := fmt.Sprintf("%d/%v/%d/%d", c, plusZero, sr.lo, sr.hi)
 	if ex.cutLemmas == nil {
@@ -981,7 +994,6 @@ func (ex *Exec) fpQuotientCut(st *State, f *term.Term, w int, signed bool, site 
 		ex.VCs = append(ex.VCs, &VC{Label: "stub-precondition:float-quotient-of-integers-is-exact(lemma)", Kind: "precond", Site: ex.posOf(site),
 			Guard: term.And(term.Sle(c64(sr.lo), u), term.Sle(u, c64(sr.hi))), Cond: term.Eq(lhs, term.SDiv(u, c64(c)))})
 	}
-	rg, rv := ex.abstractByFacts(st, v)
 	ex.VCs = append(ex.VCs, &VC{Label: "stub-precondition:operand-range-of-float-quotient", Kind: "precond", Site: ex.posOf(site),
 		Guard: rg, Cond: term.And(term.Sle(c64(sr.lo), rv), term.Sle(rv, c64(sr.hi)))})
 	// (x*k) sdiv c with c | k and no overflow is x*(k/c)
@@ -989,7 +1001,7 @@ func (ex *Exec) fpQuotientCut(st *State, f *term.Term, w int, signed bool, site 
 		for i := 0; i < 2; i++ {
 			k, x := v.Args[i], v.Args[1-i]
 			if k.IsConst() && k.SVal() > 0 && k.SVal()%c == 0 {
-				if xr, okx := st.facts().srangeOf(x); okx {
+				if xr, okx := st.facts().srangeLin(x); okx {
 					if _, o1 := mulOv(xr.lo, k.SVal()); o1 {
 						if _, o2 := mulOv(xr.hi, k.SVal()); o2 {
 							return term.Mul(x, c64(k.SVal()/c))
@@ -1006,7 +1018,7 @@ func (ex *Exec) fpQuotientCut(st *State, f *term.Term, w int, signed bool, site 
 // `k <= s`, `s <= k`) is replaced by a fresh variable carrying just those bounds, arithmetic above it is kept.
 // If the generalised claim holds for every value of the fresh variables it holds for t under the guard (the
 // bounds are conjuncts of the guard); the solver then sees `lo <= z <= hi => lo' <= 24*z <= hi'` instead of the
-// whole calendar. Subterms of any other shape are kept as they are, and then the full guard is kept as well.
+// whole calendar. If any subterm has another shape nothing is generalised: the term and the full guard are kept.
 func (ex *Exec) abstractByFacts(st *State, t *term.Term) (guard, out *term.Term) {
 	f := st.facts()
 	guard = term.True()
@@ -1049,7 +1061,9 @@ func (ex *Exec) abstractByFacts(st *State, t *term.Term) (guard, out *term.Term)
 	}
 	out = walk(t)
 	if needG {
-		guard = term.And(guard, st.G)
+		// a partial generalisation would cut the fresh variables off from what the guard says about the terms they
+		// replace (the claim could become false though it holds): keep the term and the guard as they are
+		return st.G, t
 	}
 	return guard, out
 }
